@@ -316,3 +316,123 @@ def compare_run(ctx, key, case, res, mod):
         if [int(x) for x in e['abcd']] != m['abcd'] or not np.array_equal(np.asarray(e['R'], dtype=float) * sc, m['R']) \
            or [int(x) for x in e['i']] != m['i'] or [int(x) for x in e['j']] != m['j']:
             ctx.mismatch(key, 'state after accepted swap %d differs' % t, case, m['abcd'], [int(x) for x in e['abcd']]); return
+
+
+# ---------------------------------------------------------------- stress families (oracle only): long sparse networks, heavy / tiny weights
+def _reaches_all(nb, n):
+    seen = [False] * n
+    seen[0] = True
+    todo, k = [0], 1
+    while todo:
+        x = todo.pop()
+        for y in nb[x]:
+            if not seen[y]:
+                seen[y] = True; k += 1; todo.append(y)
+    return k == n
+
+
+def connected_fast(A, und):
+    """connected_und / strongly_connected for n in the hundreds: depth-first search over adjacency lists (O(n + m) once the
+    lists are built), forwards and - directed - backwards from node 0.  nan counts as a connection (`nan != 0`)."""
+    n = len(A)
+    S = np.asarray(A) != 0
+    if und:
+        S = S | S.T
+    xs, ys = np.nonzero(S)
+    fw = [[] for _ in range(n)]; bw = [[] for _ in range(n)]
+    for x, y in zip(xs.tolist(), ys.tolist()):
+        fw[x].append(y); bw[y].append(x)
+    return n > 0 and _reaches_all(fw, n) and (und or _reaches_all(bw, n))
+
+
+STRESS_FAMILIES_UND = ['ring', 'ring+chords', 'chain+chords', 'tree+chords']
+STRESS_FAMILIES_DIR = ['dicycle+chords', 'dicycle+fewchords', 'dicycle+back', 'dicycle+skips', 'ring2+chords', 'tree2+chords']
+STRESS_WEIGHTS = ['heavy', 'heavy', 'mixed', 'tiny', 'bin']
+
+
+def stress_graph(r, und, n, fam, wkind):
+    """Long sparse networks on which nearly every swap would disconnect and the connectivity searches of the `_connected`
+    routines run for dozens of rounds: a ring, a ring / chain / deep tree with 2-4 chords; directed: a ONE-WAY cycle with n/8
+    or 3-5 random chords, with skips i -> i+2 at a third of the nodes, with short back connections i+k -> i at a tenth of
+    them (the directed test searches forwards around the cycle), and a ring / deep tree with both directions present
+    (independent weights; there the directed test is bypassed: the reverse connections close the cycle a-d-c-b).
+    Weights: heavy = integers in [1e4, 1e6] (counts), tiny = [1e-6, 1e-4], mixed = either per connection, bin = 1.
+    -> (A, edge list [i, j, w])"""
+    E = []
+    base, _, extra = fam.partition('+')
+    two = not und and base.endswith('2')
+    base = base.rstrip('2')
+    if base in ('ring', 'dicycle'):
+        E = [(i, (i + 1) % n) for i in range(n)]
+    elif base == 'chain':
+        E = [(i, i + 1) for i in range(n - 1)]
+    elif base == 'tree':
+        E = [(max(0, i - int(r.randint(1, 3))), i) for i in range(1, n)]          # parent 1..2 places back: depth ~ 2n/3
+    have = set(E) | {(b, a) for a, b in E}
+    if extra == 'skips':
+        for i in range(n):
+            if r.rand() < 1.0 / 3:
+                E.append((i, (i + 2) % n)); have.add(E[-1]); have.add(E[-1][::-1])
+    elif extra == 'back':
+        for i in range(n):
+            if r.rand() < 0.1:
+                E.append(((i + int(r.randint(2, 6))) % n, i)); have.add(E[-1]); have.add(E[-1][::-1])
+    nch = 0 if extra not in ('chords', 'fewchords') else (max(3, n // 8) if fam == 'dicycle+chords' else int(r.randint(3, 6)) if base == 'dicycle' else int(r.randint(2, 5)))
+    while nch:
+        x, y = int(r.randint(n)), int(r.randint(n))
+        if x != y and (x, y) not in have:
+            E.append((x, y)); have.add((x, y)); have.add((y, x)); nch -= 1
+    A = np.zeros((n, n))
+
+    def w():
+        k = wkind if wkind != 'mixed' else ('heavy' if r.rand() < 0.5 else 'tiny')
+        return 1.0 if k == 'bin' else float(np.round(r.uniform(1e4, 1e6))) if k == 'heavy' else float(r.uniform(1e-6, 1e-4))
+    for a, b in E:
+        A[a, b] = w()
+        if und:
+            A[b, a] = A[a, b]
+        elif two:
+            A[b, a] = w()
+    p = r.permutation(n)
+    A = A[np.ix_(p, p)]
+    xs, ys = np.nonzero(np.triu(A) if und else A)
+    return A, [[int(x), int(y), float(A[x, y])] for x, y in zip(xs, ys)]
+
+
+def graph_from_edges(n, edges, und):
+    A = np.zeros((n, n))
+    for x, y, w in edges:
+        A[x, y] = w
+        if und:
+            A[y, x] = w
+    return A
+
+
+def run_impl_watch(fn, A, itr, seed, on_swap, D=None, t=120.0):
+    """one `_connected` run with the per-swap hook handed to `on_swap(kw)` as it fires (no snapshots kept: 260 accepted swaps
+    of a 260-node network would be 140 MB in _verif.LOG).  -> dict(out, eff, error)"""
+    import bct
+    from bct.utils import _verif
+    f = getattr(bct, fn)
+    old = _verif.emit
+
+    def emit(tag, **kw):
+        if tag == 'swap':
+            on_swap(kw)
+    _verif.emit = emit
+    try:
+        if fn in LATT:
+            out = call(f, A.copy(), itr, D=None if D is None else D.copy(), seed=seed, _t=t)
+            res = {'out': out[0], 'eff': int(out[3])}
+        else:
+            R, eff = call(f, A.copy(), itr, seed=seed, _t=t)
+            res = {'out': R, 'eff': int(eff)}
+        res['error'] = None
+    except Timeout:
+        res = {'error': 'timeout'}
+    except Exception as e:  # noqa
+        res = {'error': type(e).__name__ + ': ' + str(e)[:100]}
+    finally:
+        _verif.emit = old
+        _verif.reset()
+    return res
